@@ -18,7 +18,7 @@ LEVEL_TEXT = ("Generated valid schema models, all single and sampled double rule
               "(R8) decides validity of every model; a request against every invalid schema must return exactly the validation errors without executing a resolver.")
 LEVEL_NOTE = "trusted: R8 (vf/ref/schema_rules.py) for the rule classes the property lists; mutation classes outside that list are not generated, so R8 never rules on them"
 TECHNIQUE = "runtime monitoring: differential oracle (type-system rule model) over rule-violating schema mutations; boundary exception monitor; request-on-invalid-schema monitor"
-RULE = ("models from G-schema; 31 named mutators (27 rule-violating incl. deprecated required arguments / input fields, implementation-only deprecation and duplicate interfaces / union members, 4 rule-preserving near-misses), one or two per case; each model realised as SDL -> build_schema (assume_valid_sdl on/off) "
+RULE = ("models from G-schema; 32 named mutators (28 rule-violating incl. deprecated required arguments / input fields, implementation-only deprecation and duplicate interfaces / union members, 4 rule-preserving near-misses), one or two per case; each model realised as SDL -> build_schema (assume_valid_sdl on/off) "
         "and as constructor calls with literal defaults and, unless a default is invalid, with external-value defaults; valid models with one ill-typed external-value default; grammar-random and character-mutated SDL only for the never-raises clause. Non-trivial: the model is a mutant; distinct = (model SDL, realisation).")
 ASSUMPTIONS = ["a schema 'can be constructed' when build_schema / the GraphQLSchema constructor returns; construction failures are counted, not judged"]
 REQUIRED_COUNTERS = ["verdicts_compared_with_R8", "invalid_models_checked", "valid_models_checked", "requests_against_invalid_schemas", "random_sdl_schemas_validated",
@@ -148,6 +148,36 @@ def m_iface_arg_type(r, M):
         a['deprecation'] = None if a['default'] is None else a['deprecation']
         if a['default'] == 'null':
             a['default'] = None
+    return True
+
+
+def m_iface_arg_wrapper_kind(r, M):
+    """Same named type, same number of wrappers, but a list where the interface has non-null (or the other way round)."""
+    p = [(n, i, fn, an) for n, i, fn in _impl_pairs(M) for an, ia in M['types'][i]['fields'][fn]['args'].items()
+         if ia['type'][0] != 'n' and an in M['types'][n]['fields'][fn]['args']]
+    if not p:
+        return False
+    n, i, fn, an = r.choice(p)
+    a = M['types'][n]['fields'][fn]['args'][an]
+
+    def depth(t):
+        return 0 if t[0] == 'n' else 1 + depth(t[1])
+
+    def swap(t, k):
+        if k == 0:
+            return ('l' if t[0] == 'nn' else 'nn', t[1])
+        return (t[0], swap(t[1], k - 1))
+    k = r.randrange(depth(a['type']))
+    new = swap(a['type'], k)
+    # (nn, (nn, x)) is not a type
+    def ok(t):
+        return t[0] == 'n' or (not (t[0] == 'nn' and t[1][0] == 'nn') and ok(t[1]))
+    if not ok(new):
+        return False
+    a['type'] = new
+    a['default'] = None
+    if new[0] == 'nn':
+        a['deprecation'] = None
     return True
 
 
@@ -445,7 +475,7 @@ def m_union_dup(r, M):
     return True
 
 
-MUTATORS = [m_deprecated_required, m_impl_deprecated, m_iface_dup, m_union_dup, m_no_query, m_root_not_object, m_same_root, m_iface_missing_field, m_iface_field_type, m_iface_covariant_ok, m_iface_missing_arg,
+MUTATORS = [m_iface_arg_wrapper_kind, m_deprecated_required, m_impl_deprecated, m_iface_dup, m_union_dup, m_no_query, m_root_not_object, m_same_root, m_iface_missing_field, m_iface_field_type, m_iface_covariant_ok, m_iface_missing_arg,
             m_iface_arg_type, m_iface_extra_required_arg, m_iface_extra_optional_arg_ok, m_iface_self, m_iface_missing_transitive,
             m_implements_non_interface, m_union_empty, m_union_non_object, m_empty_type, m_output_in_input, m_input_in_output, m_reserved_name,
             m_bad_default, m_null_default_for_non_null, m_input_cycle, m_input_cycle_list_ok, m_default_cycle, m_default_no_cycle_ok, m_oneof_nonnull,
